@@ -74,6 +74,8 @@ FIELD_TYPES_IN = {KX: [2, "U"], PX: [2, "U", "U"], DHCID: ["R"], NSAP: ["R"], WK
 
 
 def field_spec(rdclass, rdtype):
+    if rdclass == CH and rdtype == A:
+        return ["X", 2]
     if rdtype in FIELD_TYPES_ANY:
         return FIELD_TYPES_ANY[rdtype]
     if rdclass == IN and rdtype in FIELD_TYPES_IN:
@@ -218,6 +220,8 @@ def mk_rdata(rdclass, rdtype, rd):
             return cls(rdclass, rdtype, *struct.unpack("!IH", pb(0)), bitmap_windows(pb(1)))
         if rdtype == NSEC3:
             return cls(rdclass, rdtype, *struct.unpack("!BBH", pb(0)), pb(1)[1:], pb(2)[1:], bitmap_windows(pb(3)))
+        if rdclass == CH and rdtype == A:
+            return cls(rdclass, rdtype, piece_name(rd, 0), struct.unpack("!H", pb(1))[0])
         if rdtype in (DNAME, NSAP_PTR):
             return cls(rdclass, rdtype, piece_name(rd, 0))
         if rdtype == NSEC:
@@ -374,6 +378,8 @@ def rdata_pieces(rd):
         if t == NSEC3:
             return [struct.pack("!BBH", rd.algorithm, rd.flags, rd.iterations), bytes([len(rd.salt)]) + rd.salt,
                     bytes([len(rd.next)]) + rd.next, bitmap_bytes(rd.windows)]
+        if c == CH and t == A:
+            return [[2, labels_of(rd.domain)], struct.pack("!H", rd.address)]
         if t in (DNAME, NSAP_PTR):
             return [[2, labels_of(rd.target)]]
         if t == NSEC:
@@ -595,6 +601,15 @@ NAME_FIELDS = {NS: ["n"], CNAME: ["n"], PTR: ["n"], MX: [2, "n"], SOA: ["n", "n"
 IN_ONLY_NAME_TYPES = (SRV, KX, PX, NAPTR, NSAP_PTR)
 
 
+def name_fields(rdclass, rdtype):
+    """where the names sit inside the RDATA of (class, type); None: no names"""
+    if rdclass == CH and rdtype == A:
+        return ["n", 2]
+    if rdtype in NAME_FIELDS and (rdclass == IN or rdtype not in IN_ONLY_NAME_TYPES):
+        return NAME_FIELDS[rdtype]
+    return None
+
+
 def walk(wire):
     """Walk a whole message.  Returns dict(counts, rrs=[(section, owner labels, type, class, ttl, rdata names...)],
     names=[(offset, labels)], ptrs=[(ptr offset, target)], end)"""
@@ -636,9 +651,9 @@ def walk(wire):
                 raise WalkError("rdata runs off the end")
             rnames = []
             ec = zone_class if (zone_class is not None and c in (ANY, NONE)) else c   # update deletes
-            if rdlen > 0 and t in NAME_FIELDS and (ec == IN or t not in IN_ONLY_NAME_TYPES):
+            if rdlen > 0 and name_fields(ec, t) is not None:
                 o = off
-                for f in NAME_FIELDS[t]:
+                for f in name_fields(ec, t):
                     if f == "n":
                         ls, o = name_at(o)
                         rnames.append(ls)
@@ -889,7 +904,9 @@ def rd_key(rd, origin=None):
 
 def gen_rrset(rng, pool, rdclass=IN, types=None, used=None, section=1):
     """a non-empty rrset with distinct rdatas; `used` holds the keys already taken in the section"""
+    rdclass0 = rdclass
     for _ in range(20):
+        rdclass = rdclass0
         r_ = rng.random()
         if r_ < 0.15:
             rdtype = rng.choice(GENERIC_TYPES)
@@ -897,6 +914,8 @@ def gen_rrset(rng, pool, rdclass=IN, types=None, used=None, section=1):
                 continue
         elif r_ < 0.33 and types is None:
             rdtype = rng.choice(FIELD_TYPES_ALL)
+            if rdclass == IN and rng.random() < 0.06:
+                rdclass, rdtype = CH, A          # Chaosnet A: a name and an address
         else:
             rdtype = rng.choice(types or TYPES_IN)
         if not modelled(rdclass, rdtype) or rdtype in (OPT, TSIG):
